@@ -65,12 +65,46 @@ impl Block for SlowPass {
     }
 }
 
+/// Float source that emits its data in the given chunk sizes, one chunk per work() call.
+#[derive(rustradio_macros::Block)]
+#[rustradio(new)]
+struct ChunkSource {
+    #[rustradio(out)]
+    dst: rustradio::stream::WriteStream<rustradio::Float>,
+    data: Vec<rustradio::Float>,
+    chunks: Vec<usize>,
+    pos: usize,
+    k: usize,
+}
+impl Block for ChunkSource {
+    fn work(&mut self) -> Result<BlockRet> {
+        if self.pos >= self.data.len() {
+            return Ok(BlockRet::EOF);
+        }
+        let mut o = self.dst.write_buf()?;
+        let want = self.chunks.get(self.k).copied().unwrap_or(usize::MAX).min(self.data.len() - self.pos).max(1);
+        if o.len() < want {
+            return Ok(BlockRet::WaitForStream(&self.dst, want));
+        }
+        o.fill_from_slice(&self.data[self.pos..self.pos + want]);
+        o.produce(want, &[]);
+        self.pos += want;
+        self.k += 1;
+        if self.pos >= self.data.len() {
+            return Ok(BlockRet::EOF);
+        }
+        Ok(BlockRet::Again)
+    }
+}
+
 enum Port {
+    F(ReadStream<rustradio::Float>),
     U8(ReadStream<u8>),
     Big(ReadStream<Big>),
     Pkt(NCReadStream<Vec<u8>>),
 }
 enum SinkStore {
+    F(rustradio::vector_sink::Hook<rustradio::Float>),
     U8(rustradio::vector_sink::Hook<u8>),
     Big(rustradio::vector_sink::Hook<Big>),
     Pkt(Arc<Mutex<Vec<Vec<u8>>>>),
@@ -78,6 +112,8 @@ enum SinkStore {
 impl SinkStore {
     fn data(&self) -> Vec<i64> {
         match self {
+            // floats: integer-valued up to rounding (FFT filter on integer data)
+            SinkStore::F(h) => h.data().samples().iter().map(|v| if v.is_finite() && (v - v.round()).abs() < 1e-3 { v.round() as i64 } else { crate::bench::NONUM }).collect(),
             SinkStore::U8(h) => h.data().samples().iter().map(|v| *v as i64).collect(),
             SinkStore::Big(h) => h.data().samples().iter().map(|v| v.val().map(|x| x as i64).unwrap_or(crate::bench::NONUM)).collect(),
             SinkStore::Pkt(s) => s.lock().unwrap().iter().flat_map(|p| std::iter::once(-1i64).chain(p.iter().map(|b| *b as i64))).collect(),
@@ -118,6 +154,28 @@ fn build(desc: &Value) -> std::result::Result<Built, String> {
                 let data: Vec<u8> = n["p"]["data"].as_array().ok_or("data")?.iter().map(|v| v.as_u64().unwrap_or(0) as u8).collect();
                 let (b, o) = VectorSource::new(data);
                 one!(b, Port::U8(o))
+            }
+            ("src_f", None, None) => {
+                let data: Vec<rustradio::Float> = n["p"]["data"].as_array().ok_or("data")?.iter().map(|v| v.as_i64().unwrap_or(0) as rustradio::Float).collect();
+                let chunks: Vec<usize> = n["p"]["chunks"].as_array().map(|a| a.iter().map(|v| v.as_u64().unwrap_or(1) as usize).collect()).unwrap_or_default();
+                let (b, o) = ChunkSource::new(data, chunks, 0, 0);
+                one!(b, Port::F(o))
+            }
+            ("fftfiltf", Some(Port::F(r)), None) => {
+                let taps: Vec<rustradio::Float> = n["p"]["taps"].as_array().ok_or("taps")?.iter().map(|v| v.as_i64().unwrap_or(0) as rustradio::Float).collect();
+                let (b, o) = FftFilterFloat::new(r, &taps);
+                one!(b, Port::F(o))
+            }
+            ("firf", Some(Port::F(r)), None) => {
+                let taps: Vec<rustradio::Float> = n["p"]["taps"].as_array().ok_or("taps")?.iter().map(|v| v.as_i64().unwrap_or(0) as rustradio::Float).collect();
+                let (b, o) = FirFilterBuilder::new(&taps).deci(pu(n, "deci", 1) as usize).build(r);
+                one!(b, Port::F(o))
+            }
+            ("sink", Some(Port::F(r)), None) => {
+                let s = VectorSink::new(r, 1 << 30);
+                sinks.push((ix + 1, SinkStore::F(s.hook())));
+                blocks.push(Some(Box::new(s)));
+                ports.push(vec![]);
             }
             ("src_big", None, None) => {
                 let data: Vec<Big> = n["p"]["data"].as_array().ok_or("data")?.iter().map(|v| Big::of(v.as_u64().unwrap_or(0))).collect();
